@@ -121,8 +121,19 @@ impl Relation for ZkirRelation {
             })
         };
 
+        // Jubjub values can also enter the program as constants.
+        let involves_jubjub_constants = self.program.instructions.iter().any(|instr| {
+            instr.inputs.iter().any(|name| {
+                matches!(
+                    IrValue::try_from(name.as_str()),
+                    Ok(IrValue::JubjubPoint(_)) | Ok(IrValue::JubjubScalar(_))
+                )
+            })
+        });
+
         ZkStdLibArch {
-            jubjub: involves_types(&[IrType::JubjubPoint, IrType::JubjubScalar]),
+            jubjub: involves_types(&[IrType::JubjubPoint, IrType::JubjubScalar])
+                || involves_jubjub_constants,
             poseidon: operations.iter().any(|op| matches!(op, Poseidon)),
             sha2_256: operations.iter().any(|op| matches!(op, Sha256)),
             sha2_512: operations.iter().any(|op| matches!(op, Sha512)),
